@@ -142,4 +142,71 @@ FloatBoundary(F) ==
             Fld(s, F.bias - 2, << 1 >>),            \* 0.25 + ulp
             Fld(s, F.bias - 4, BAdd(BPow2(F.p - 2), BPow2(F.p - 3))) }   \* 0.109375
           : s \in {0, 1} }
+
+---------------------------------------------------------------------------
+(* Scale by exactly 1.0 on EVERY sample value (round 4).                    *)
+(*                                                                          *)
+(* C03: "for every sample format and value ... scaling by 1.0 returns the   *)
+(* same sample (exactly when the format fits its float companion's          *)
+(* mantissa, otherwise within that float precision)".  MulAmp is a FUNCTION *)
+(* only where the float product lies in [-1, 1) (MulAmpDefined).  The top   *)
+(* 2^(bits-p-2) values of i32 u32 (f32, p = 24) and i64 u64 (f64, p = 53)   *)
+(* have the float image +1.0 -- their amplitude rounds up to 2^(bits-1) --, *)
+(* so their product with the gain 1.0 is exactly 1.0: outside that domain,  *)
+(* and yet the property speaks about them.  For the gain 1.0 the claim      *)
+(* there is the property's own RELATION: the result is a sample of the      *)
+(* format within the float precision 2^(bits-p-2) (64 resp. 512, the bound  *)
+(* MC_Frame's Scale1 proves below 1.0) of the original.  A float -> integer *)
+(* conversion that saturates satisfies it (MC_Frame, UnitySat); one that    *)
+(* wraps around to MIN does not.  Other gains whose product is >= 1.0 stay  *)
+(* without a claim.                                                         *)
+FltOf(f) == FmtOf(FloatOf(f))
+FitsMantissa(f) == IsFloat(f) \/ Bits(f) <= FltOf(f).p
+IsUnity(f, g)  == g = FOne(FltOf(f))                                       \* the gain +1.0 of f's Float format
+UnitySlack(f)  == IF FitsMantissa(f) THEN SZero ELSE SPow2(Bits(f) - FltOf(f).p - 2)
+MulAmpClaimed(f, s, g) == MulAmpDefined(f, s, g) \/ IsUnity(f, g)
+MulAmpOk(f, s, g, r) ==          \* r is an admissible result of mul_amp(s, g), given MulAmpClaimed(f, s, g)
+  IF MulAmpDefined(f, s, g) THEN r = MulAmp(f, s, g)
+  ELSE InRange(f, r) /\ SLe(SAbs(SSub(r, s)), UnitySlack(f))               \* (integer formats only: floats are always defined)
+FrScaleClaimed(f, x, g) == \A c \in 1..Len(x) : MulAmpClaimed(f, x[c], g)
+FrScaleOk(f, x, g, r)   == Len(r) = Len(x) /\ \A c \in 1..Len(x) : MulAmpOk(f, x[c], g, r[c])
+FrMulClaimed(f, x, y)   == \A c \in 1..Len(x) : MulAmpClaimed(f, x[c], y[c])
+FrMulOk(f, x, y, r)     == Len(r) = Len(x) /\ \A c \in 1..Len(x) : MulAmpOk(f, x[c], y[c], r[c])
+
+\* a.add_amp(b.mul_amp(g)) -- one channel of add_in_place_with_amp_per_channel: b in SignedOf(f), g in its Float format.
+\* Where b * g is only claimed as the relation above (g = 1.0, b among the top values of i32 / i64) the scaled amplitude m
+\* lies in [b - slack, b + slack] within SignedOf(f); AddAmp(f, a, .) is monotone and moves in steps of at most one, so
+\* the admissible sums are exactly the interval between the sums at the two ends (claimed when both ends are defined).
+SMinOf(x, y) == IF SLe(x, y) THEN x ELSE y
+SMaxOf(x, y) == IF SLe(x, y) THEN y ELSE x
+UnityLo(sf, b) == SMaxOf(MinV(sf), SSub(b, UnitySlack(sf)))
+UnityHi(sf, b) == SMinOf(MaxV(sf), SAdd(b, UnitySlack(sf)))
+AddMulClaimed(f, a, b, g) ==
+  LET sf == SignedOf(f) IN
+  IF MulAmpDefined(sf, b, g) THEN AddAmpDefined(f, a, MulAmp(sf, b, g))
+  ELSE IsUnity(sf, g) /\ AddAmpDefined(f, a, UnityLo(sf, b)) /\ AddAmpDefined(f, a, UnityHi(sf, b))
+AddMulOk(f, a, b, g, r) ==
+  LET sf == SignedOf(f) IN
+  IF MulAmpDefined(sf, b, g) THEN r = AddAmp(f, a, MulAmp(sf, b, g))
+  ELSE SLe(AddAmp(f, a, UnityLo(sf, b)), r) /\ SLe(r, AddAmp(f, a, UnityHi(sf, b)))
+
+\* the float -> integer conversion AS CODED for the primitive targets (`as` saturates): used by MC_Frame only, to show
+\* that the relation above is satisfiable by the pinned code's route on every value
+MulAmpSat(f, s, g) ==
+  LET t == DTrunc(DScale2(Dec(FltOf(f), MulAmpProduct(f, s, g)), Bits(f) - 1))
+      c == SMaxOf(SNeg(Half(f)), SMinOf(SSub(Half(f), SFromInt(1)), t))
+  IN FromAmp(f, c)
+
+\* the extreme values of a format: MAX - d and MIN + d for the distances d around the float precision of the companion
+\* (0..3; 2^k - 1, 2^k, 2^k + 1 for k around bits-p-2; the rounding tie 3 * 2^(bits-p-2)), floats: +-largest finite
+EdgeDists(f) ==
+  LET sl == Bits(f) - FltOf(f).p - 2 IN
+  {SFromInt(d) : d \in 0..3}
+  \cup (IF FitsMantissa(f) THEN {}
+        ELSE UNION { { SSub(SPow2(k), SOne), SPow2(k), SAdd(SPow2(k), SOne) } : k \in (sl - 1)..(sl + 2) }
+             \cup { SSub(SMul(SFromInt(3), SPow2(sl)), SOne), SMul(SFromInt(3), SPow2(sl)), SAdd(SMul(SFromInt(3), SPow2(sl)), SOne) })
+FMaxFinite(F, s) == Fld(s, EMax(F) - 1, FMantAllOnes(F))
+TopEdge(f)    == { SSub(MaxV(f), d) : d \in EdgeDists(f) }
+BottomEdge(f) == { SAdd(MinV(f), d) : d \in EdgeDists(f) }
+EdgeValues(f) == IF IsFloat(f) THEN { FMaxFinite(FmtOf(f), 0), FMaxFinite(FmtOf(f), 1) } ELSE TopEdge(f) \cup BottomEdge(f)
 =============================================================================
